@@ -157,6 +157,18 @@ func main() {
 	dumpRolesTo := flag.String("dumproles", "", "development: write the role fingerprints of -repo's functions to this file")
 	flag.Parse()
 	rolesFile = filepath.Join(*out, "checker", "roles.json")
+	if os.Getenv("ERGO_DUMP_STATESETS") != "" {
+		prog, err := loadProgram(*repo, quickConfigs[0])
+		if err == nil {
+			curProg = prog
+			facts, _ := computeFacts(prog)
+			cx := &Ctx{Prog: prog, F: facts}
+			for f, set := range cx.stateConstSets() {
+				fmt.Println(prog.Name(f), setString(set))
+			}
+		}
+		return
+	}
 	if *dumpRolesTo != "" {
 		prog, err := loadProgramRaw(*repo, quickConfigs[0])
 		if err != nil {
